@@ -70,6 +70,7 @@ pub struct Stats {
   pub max_depth: usize,
   pub checks_discharged: u64,
   pub symbolic_paths: u64, // paths on which at least one solver-decided branch/check occurred
+  pub nontrivial_paths: u64, // completed paths that delivered a notification to a subscriber or had a solver-decided branch/query
   pub inconclusive: Vec<String>,
   pub covers: BTreeMap<String, u64>,
   pub samples: Vec<String>,
@@ -90,6 +91,7 @@ impl Stats {
     self.max_depth = self.max_depth.max(o.max_depth);
     self.checks_discharged += o.checks_discharged;
     self.symbolic_paths += o.symbolic_paths;
+    self.nontrivial_paths += o.nontrivial_paths;
     for i in &o.inconclusive {
       if self.inconclusive.len() < 20 {
         self.inconclusive.push(i.clone());
@@ -918,6 +920,7 @@ pub fn run_once(prefix: Vec<Decision>, harness: &dyn Fn()) -> RunOutcome {
   with(|c| c.begin_run(prefix));
   crate::world::reset_world();
   let r = std::panic::catch_unwind(std::panic::AssertUnwindSafe(|| harness()));
+  let delivered = crate::world::any_delivery();
   crate::world::reset_world();
   let mut out = RunOutcome { violation: None, alternatives: vec![], pruned: false, panic_msg: None };
   let swallowed = with(|c| c.aborting);
@@ -990,6 +993,9 @@ pub fn run_once(prefix: Vec<Decision>, harness: &dyn Fn()) -> RunOutcome {
       c.stats.paths += 1;
       if c.path_symbolic {
         c.stats.symbolic_paths += 1;
+      }
+      if c.path_symbolic || delivered {
+        c.stats.nontrivial_paths += 1;
       }
       if c.stats.samples.len() < 3 && !c.notes.is_empty() {
         let s = c.notes.join(" ; ");
